@@ -354,13 +354,10 @@ void spki_table_notify_diff(struct spki_table *new_table, struct spki_table *old
 	old_table->update_fp = old_table_fp;
 }
 
-void spki_table_swap(struct spki_table *a, struct spki_table *b)
+void spki_table_swap_locked(struct spki_table *a, struct spki_table *b)
 {
 	tommy_hashlin tmp_hashtable;
 	tommy_list tmp_list;
-
-	pthread_rwlock_wrlock(&a->lock);
-	pthread_rwlock_wrlock(&b->lock);
 
 	memcpy(&tmp_hashtable, &a->hashtable, sizeof(tmp_hashtable));
 	memcpy(&tmp_list, &a->list, sizeof(tmp_list));
@@ -370,6 +367,14 @@ void spki_table_swap(struct spki_table *a, struct spki_table *b)
 
 	memcpy(&b->hashtable, &tmp_hashtable, sizeof(tmp_hashtable));
 	memcpy(&b->list, &tmp_list, sizeof(tmp_list));
+}
+
+void spki_table_swap(struct spki_table *a, struct spki_table *b)
+{
+	pthread_rwlock_wrlock(&a->lock);
+	pthread_rwlock_wrlock(&b->lock);
+
+	spki_table_swap_locked(a, b);
 
 	pthread_rwlock_unlock(&a->lock);
 	pthread_rwlock_unlock(&b->lock);
